@@ -1376,7 +1376,7 @@ class TimeFluxProfile(
             The integral value of the entire time profile.
             The value is in the set time unit of this TimeFluxProfile instance.
         """
-        integral = self.get_integral(self._t_start, self._t_stop).squeeze()
+        integral = np.squeeze(self.get_integral(self._t_start, self._t_stop))
 
         return integral
 
